@@ -136,7 +136,8 @@ CHECKS = {
   'text': 'Decides: Parse succeeds iff the grammar accepted and no critical error was counted, and never fails silently; every refusal of parser, helpers and auditors logs an error; no visitor leaves its node; '
           'every std::get / optional::value / at / stoi / substr in the analysis code is guarded, caught, or covered by a named invariant; no byte sequence can jam a scanner and unknown bytes are reported; '
           'errors of a nested analysis of another text never enter the input\'s log.',
-  'note': 'NOT decided: stack depth on adversarial nesting (recursive descent of visitors), termination bounds of the evaluator, behaviour of the JSON library; 14 throwing sites rest on invariants confirmed by reading and listed one by one in rules/C04.py.',
+  'note': 'Adversarial nesting: r9 DEPTH-BOUNDED decides that the only way to the syntax tree leads through a gate that (interpreted on chains) refuses depth 4096 with a critical error while accepting ordinary and wide trees, and that the raw nodes are released iteratively (audit finding repaired: stack overflow from about 14000 levels); it does NOT decide that the stack suffices for the bound, nor the depth of trees the normaliser builds by inlining. '
+          'r2 also covers the Interpreter::Evaluate facade (silent refusal of the empty expression: repaired). NOT decided: resource bounds of the evaluator (set operations on lazily stored power sets enumerate them without a limit: open audit finding), behaviour of the JSON library; the throwing sites that rest on invariants confirmed by reading are listed one by one in rules/C04.py, the lock-step stacks and the last-field read of ExtractMorpho are decided structurally / by interpretation.',
  },
  'C03': {
   'technique': 'whole-program "loud refusal" fixpoint over the auditors\' CFGs (every refusing return is dominated by an error report or is the propagation of a loud callee), '
